@@ -10,7 +10,7 @@ repo = Repo('/repo/src', extra_roots=['/verif/contracts'])
 for q, c in REGISTRY.items():
     if pat and pat not in q: continue
     t = time.time()
-    fv = FunctionVerifier(repo, c, REGISTRY)
+    fv = FunctionVerifier(repo, c, REGISTRY, setup=c.engine_setup, spec_modules=["spec_geonet"] if False else [])
     try:
         res = fv.run()
     except Exception as e:
